@@ -189,6 +189,10 @@ POS["create_as_select_other_cls"] = lambda Q, v: Q.create_table("n").as_select(_
 POS["subquery_where_other_cls"] = lambda Q, v: Q.from_(_t()).select("a").where(_t().a.isin(_other(Q).from_(Table("u")).select("x").where(Table("u").y == v)))
 POS["from_sub_other_cls"] = lambda Q, v: (lambda sq: Q.from_(sq).select(sq.x))(_other(Q).from_(Table("u")).select("x").where(Table("u").y == v).as_("sq"))
 POS["union_operand_other_cls"] = lambda Q, v: Q.from_(_t()).select("a").union(_other(Q).from_(Table("u")).select("x").where(Table("u").y == v))
+# the remaining JSON operators of Term
+POS["json_text_key"] = lambda Q, v: Q.from_(_t()).select("a").where(_t().j.get_text_value(v) == "x")
+POS["json_has_keys"] = lambda Q, v: Q.from_(_t()).select("a").where(_t().j.has_keys([v]))
+POS["json_has_any_keys"] = lambda Q, v: Q.from_(_t()).select("a").where(_t().j.has_any_keys([v]))
 POS["m_from_to"] = lambda Q, v: Q.from_(_t()).select("a").where(_t().a.from_to(v, 0))
 POS["between_upper"] = lambda Q, v: Q.from_(_t()).select("a").where(_t().a.between(0, v))
 # containers of other Python types
@@ -199,7 +203,7 @@ POS["notin_set_mixed"] = lambda Q, v: Q.from_(_t()).select("a").where(_t().a.not
 POS.pop("returning")
 # positions that accept only some kinds
 ONLY = {"like": {"str"}, "m_not_like": {"str"}, "m_ilike": {"str"}, "m_not_ilike": {"str"}, "m_rlike": {"str"}, "m_regex": {"str"},
-        "m_bin_regex": {"str"}, "m_glob": {"str"}, "json_key": {"str", "int"}, "json_has_key": {"str"}, "arith": {"int", "float", "decimal", "str"},
+        "m_bin_regex": {"str"}, "m_glob": {"str"}, "json_key": {"str", "int"}, "json_has_key": {"str"}, "json_text_key": {"str", "int"}, "json_has_keys": {"str"}, "json_has_any_keys": {"str"}, "arith": {"int", "float", "decimal", "str"},
         "arith_sub": {"int", "float", "decimal", "enum", "bool"}, "arith_sub_prod": {"int", "float", "decimal", "enum"},
         "arith_sub_where": {"int", "float", "decimal", "enum"}, "arith_sub_negprod": {"int", "float", "decimal"},
         "arith_sub_negquot": {"int", "float", "decimal"}}
@@ -209,7 +213,9 @@ JSON_POS = {"json_term": lambda Q, v: Q.from_(_t()).select(JSON(v)),
             "in_list": POS["in_list"], "func_arg": POS["func_arg"], "col_default": POS["col_default"],
             "do_update": POS["do_update"]}
 # plain str in JSON term / contains
-POS_STR_EXTRA = {"json_term": JSON_POS["json_term"], "json_path": lambda Q, v: Q.from_(_t()).select("a").where(_t().j.get_path_json_value(v) == 0)}
+POS_STR_EXTRA = {"json_term": JSON_POS["json_term"], "json_path": lambda Q, v: Q.from_(_t()).select("a").where(_t().j.get_path_json_value(v) == 0),
+                 "json_path_text": lambda Q, v: Q.from_(_t()).select("a").where(_t().j.get_path_text_value(v) == "x")}
+JSON_POS["json_contained_by"] = lambda Q, v: Q.from_(_t()).select("a").where(_t().j.contained_by(v))
 
 
 def positions_for(kind):
@@ -383,7 +389,7 @@ def run_case(case):
         fn = lambda Q, x: fn0(Q, W(x) if isinstance(x, list) else x)  # a bare list would be an Array / a row
     if pos in ("do_update", "col_default") and v is None:
         return res  # do_update(field, None) means EXCLUDED.field, default=None means no default: not value positions
-    if pos == "json_path" and d == "mysql":
+    if pos in ("json_path", "json_path_text") and d == "mysql":
         return res  # '#>' is a PostgreSQL operator; '#' opens a comment in MySQL
     lexd = "sqlite" if d == "generic" else d
     res.nontrivial = 1
